@@ -257,4 +257,66 @@ theorem quote_unquote_id (q : EscQuirks) (v : List Char) : unquote q (quoteVal v
   unfold unquote
   exact unquote_quote_aux q v _ (by omega)
 
+
+/-! ### final proof round: the as-is value representation without kept escapes -/
+
+theorem unquoteAux_noBackslash (q : EscQuirks) : ∀ (v : List Char) (f : Nat), v.length ≤ f →
+    (∀ c ∈ v, c ≠ '\\') → unquoteAux q f v = v
+  | [], f, _, _ => by cases f <;> simp [unquoteAux]
+  | c :: v, f, hf, h => by
+    obtain ⟨f', rfl⟩ : ∃ f', f = f' + 1 := ⟨f - 1, by simp at hf; omega⟩
+    have hc : ¬ c = '\\' := h c (by simp)
+    have ih := unquoteAux_noBackslash q v f' (by simp at hf; omega) (fun d hd => h d (by simp [hd]))
+    simp [unquoteAux, hc, ih]
+
+theorem quoteVal_noBackslash : ∀ v : List Char, (∀ c ∈ v, c ≠ '\\') → quoteVal v = v
+  | [], _ => rfl
+  | c :: v, h => by
+    have hc : ¬ c = '\\' := h c (by simp)
+    have ih := quoteVal_noBackslash v (fun d hd => h d (by simp [hd]))
+    have : quoteVal (c :: v) = (if c = '\\' then ['\\', '\\'] else [c]) ++ quoteVal v := by
+      simp [quoteVal]
+    rw [this, ih]; simp [hc]
+
+/-- `quote_unquote_id` on the AS-IS model, under the hypothesis that excludes the open
+finding C27-keeps-escapes (the stored value contains no kept escape, i.e. no backslash):
+`quote(unquote(s))` has the value of `s`, for every flag setting. -/
+theorem quote_unquote_id_asis (q : EscQuirks) (v : List Char) (h : ∀ c ∈ v, c ≠ '\\') :
+    quoteVal (unquote q v) = v ∧ unquote q v = v := by
+  have hu : unquote q v = v := unquoteAux_noBackslash q v _ (by omega) h
+  exact ⟨by rw [hu]; exact quoteVal_noBackslash v h, hu⟩
+example : ∀ c ∈ ['h', 'é', '"', ' ', Char.ofNat 0xE000], c ≠ '\\' := by decide
+
+theorem displayBody_plain (q : EscQuirks) : ∀ v : List Char,
+    (∀ c ∈ v, c ≠ '"' ∧ isPrivateUse c = false) → displayBody q '"' v = v
+  | [], _ => rfl
+  | c :: v, h => by
+    have hc := h c (by simp)
+    have ih := displayBody_plain q v (fun d hd => h d (by simp [hd]))
+    simp [displayBody, hc.1, hc.2, ih]
+
+/-- PIPELINE, proved fragment: for every literal made of plain characters (no backslash, `#`,
+quote or line break) without private-use characters, under EVERY flag setting, the code's
+own pipeline — parse the literal, print the value — emits a token whose decoded content is
+exactly what the literal denotes.
+NOT PROVED (kept visible): the same for ALL literals with all flags off,
+`∀ lit v, parseDq escSpec lit = some v → ∃ w, display escSpec v = qc :: w ++ [qc] ∧
+ decodeCss w = decodeCss lit`; missing: the round trip `hexNum (hexDigits n) = n` for the
+variable-length `{:x}` digits together with the terminator logic of `cleanupWs`/`displayBody`
+(escapes of control and private-use characters), and the `prefQuote` case split. -/
+theorem pipeline_preserves_plain (q : EscQuirks) (lit : List Char)
+    (h : ∀ c ∈ lit, isPlain c = true ∧ isPrivateUse c = false) :
+    ∃ v, parseDq q lit = some v ∧ display q v = '"' :: v ++ ['"'] ∧ decodeCss v = decodeCss lit := by
+  have hp : ∀ c ∈ lit, isPlain c = true := fun c hc => (h c hc).1
+  refine ⟨lit, parseDq_plain q lit hp, ?_, rfl⟩
+  have hnq : ∀ c ∈ lit, c ≠ '"' ∧ isPrivateUse c = false := by
+    intro c hc
+    refine ⟨?_, (h c hc).2⟩
+    intro hh; subst hh; have := (h _ hc).1; revert this; decide
+  have hcq : ¬ '"' ∈ lit := by
+    intro hm; exact (hnq _ hm).1 rfl
+  have hb := displayBody_plain q lit hnq
+  simp [display, prefQuote, hcq, hb]
+example : ∀ c ∈ ['h', 'é', ' ', '😀'], isPlain c = true ∧ isPrivateUse c = false := by decide
+
 end C27
